@@ -7,6 +7,7 @@ from typing import Dict, List, Optional, Set
 from .. import q
 from ..boolterm import Converter, Undecided, atom, equivalent, head_name, mk, show
 from ..core import guard_facts, AnchorError, ClassInfo, Ctx, FuncInfo, dotted, norm, returns_or_raises_everywhere, walk_no_nested
+from ..rewrite import single_bindings
 
 ID = "C11"
 TECHNIQUE = (
@@ -95,6 +96,39 @@ def check_table(ctx: Ctx, m, step: FuncInfo, handled: Dict[str, str]):
             ctx.check(h in members, "DP-TABLE", None, f"handled gate {h} is admitted", "", f"the step has an update rule for {h} but ZB_GATES does not admit it: a run of such gates is silently dropped from the sections", construct=f"{DEC}.ZB_GATES")
 
 
+def _check_wire_names(ctx: Ctx, helper: FuncInfo):
+    """the helper returns one symbol per wire, in wire order: an append loop or a comprehension over its parameter"""
+    hb = single_bindings(helper)
+    rets = q.returns(helper)
+    if len(rets) != 1 or rets[0].value is None:
+        ctx.undecided(helper.short, "the per-wire helper has no single returned list")
+        return
+    res = rets[0].value
+    src = None  # the iterable the returned list is built from, one element each
+    if isinstance(res, ast.Name) and res.id in hb:
+        res_v = hb[res.id]
+    else:
+        res_v = res
+    if isinstance(res_v, ast.ListComp) and len(res_v.generators) == 1 and not res_v.generators[0].ifs:
+        src = res_v.generators[0].iter
+    elif isinstance(res, ast.Name) and isinstance(res_v, ast.List) and not res_v.elts:
+        apps = [c for c in q.method_calls(helper.node, "append") if norm(c.func.value) == res.id]
+        loops = [l for l in q.for_loops(helper.node) if any(q.contains(l, c) for c in apps)]
+        if len(apps) == 1 and len(loops) == 1 and not guard_facts(helper, apps[0]):
+            src = loops[0].iter
+        elif len(apps) == 1 and len(loops) == 1:
+            ctx.check(False, "DP-WIRES", helper, "wire names in wire order", "", f"`{norm(apps[0])}` happens only under a condition: a wire without a name shifts controls and target", apps[0])
+            return
+    if src is None:
+        ctx.undecided(helper.short, f"the returned list `{norm(res)}` is neither an append loop nor a comprehension over the wires")
+        return
+    core, par = q.reversal_parity(src, hb)
+    if norm(core) != helper.params[0]:
+        ctx.undecided(helper.short, f"the per-wire list is built from `{norm(src)}`, not directly from the wire list")
+        return
+    ctx.check(par == 0, "DP-WIRES", helper, "wire names in wire order", "", "the per-wire symbol list is not built in wire order", helper.node)
+
+
 def check_step(ctx: Ctx, fi: FuncInfo) -> Dict[str, str]:
     loops = [l for l in q.for_loops(fi.node) if isinstance(l.target, ast.Tuple) and len(l.target.elts) == 3]
     if len(loops) != 1:
@@ -108,10 +142,7 @@ def check_step(ctx: Ctx, fi: FuncInfo) -> Dict[str, str]:
             wn = s.targets[0].id
             helper = fi.nested.get(dotted(s.value.func) or "")
             if helper is not None:
-                hl = q.for_loops(helper.node)
-                ok = len(hl) == 1 and norm(hl[0].iter) == helper.params[0] and q.reversal_parity(hl[0].iter)[1] == 0
-                app = [c for c in q.method_calls(helper.node, "append")]
-                ctx.check(ok and len(app) == 1, "DP-WIRES", helper, "wire names in wire order", "", "the per-wire symbol list is not built in wire order", helper.node)
+                _check_wire_names(ctx, helper)
     if wn is None:
         raise AnchorError(fi.short, "per-wire symbol list (wn = check_or_add(w)) not found")
     table = None
@@ -161,6 +192,21 @@ def check_step(ctx: Ctx, fi: FuncInfo) -> Dict[str, str]:
             raise AnchorError(fi.short, f"branch {heads}: expected exactly one table update")
         h = "/".join(heads)
         st = stores[0]
+        if any(isinstance(x, ast.Name) and not (x.id in (wn, g, w, p) or x.id in fi.params) for x in ast.walk(st.targets[0].slice)) or any(
+            isinstance(x, ast.Subscript) and isinstance(x.slice, ast.Name) and x.slice.id not in (wn, g, w, p) for x in ast.walk(st.value)
+        ):
+            # `target = wn[1]; exps[target] = ...`: per-branch temporaries are replaced by what they stand for
+            host = next((b for b in body if b is st or q.contains(b, st)), None)
+            key_v = q.value_at(loop.body, host, st.targets[0].slice, keep=(wn,)) if host is not None else None
+            val_v = q.value_at(loop.body, host, st.value, keep=(wn,)) if host is not None else None
+            if key_v is None or val_v is None:
+                ctx.undecided(fi.short, f"branch {heads}: `{norm(st)}` uses a temporary without a single reaching definition")
+                continue
+            st2 = ast.Assign(targets=[ast.Subscript(value=st.targets[0].value, slice=key_v, ctx=ast.Store())], value=val_v)
+            ast.copy_location(st2, st)
+            ast.fix_missing_locations(st2)
+            st2._ord = getattr(st, "_ord", None)
+            st = st2
         table = norm(st.targets[0].value)
         ns = {arity.get(x, None) for x in heads}
         n = ns.pop() if len(ns) == 1 else None
@@ -285,7 +331,11 @@ def check_decompile(ctx: Ctx, fi: Optional[FuncInfo], step: FuncInfo):
     if len(sec_apps) < 1:
         raise AnchorError(fi.short, "no DecompiledSection is built")
     post_flush = any(not q.contains(loop, c) for c in sec_apps)
-    ctx.check(norm(src).endswith(".gates") and par == 0, "TS-SECTION", fi, "gates visited forward", norm(src), f"iterates `{norm(it)}`", loop)
+    src_core, par = q.reversal_parity(src, single_bindings(fi))
+    if not norm(src_core).endswith(".gates"):
+        ctx.undecided(fi.short, f"the gate loop iterates `{norm(it)}`, which is not a circuit's gate list")
+    else:
+        ctx.check(par == 0, "TS-SECTION", fi, "gates visited forward", norm(src_core), f"iterates `{norm(it)}`", loop)
     ctx.check(sentinel or post_flush, "TS-SECTION", fi, "last section is flushed", "non-classical sentinel appended to the gate list" if sentinel else "flush after the loop", "a classical run that reaches the end of the circuit is never reported (no sentinel, no flush after the loop)", loop)
     # index advances once per iteration, unconditionally
     idx = None
@@ -306,8 +356,39 @@ def check_decompile(ctx: Ctx, fi: Optional[FuncInfo], step: FuncInfo):
                 ok = len(n.value.args) == 2 and norm(n.value.args[1]) == buf and (dotted(n.value.func) or "").endswith("exps_of_section")
     ctx.check(ok, "TS-SECTION", fi, "section expressions come from the section's own gates", f"exps = step(qc, {buf})", "the expressions attached to a section are not computed from that section's gate buffer", sa)
     rng = sa.args[2] if len(sa.args) > 2 else None
+    if isinstance(rng, ast.Name):
+        # `rng = (start, i - 1) if <previous gate is a no-op> else (start, i)`, as statement or expression
+        rdefs = [n for n in ast.walk(loop) if isinstance(n, ast.Assign) and len(n.targets) == 1 and norm(n.targets[0]) == rng.id]
+        alts = None
+        if len(rdefs) == 2 and isinstance(fi.pm.get(rdefs[0]), ast.If) and fi.pm.get(rdefs[0]) is fi.pm.get(rdefs[1]):
+            pif = fi.pm.get(rdefs[0])
+            if len(pif.body) == 1 and len(pif.orelse) == 1 and pif.body[0] in rdefs and pif.orelse[0] in rdefs:
+                alts = (pif, pif.test, pif.body[0].value, pif.orelse[0].value)
+        elif len(rdefs) == 1 and isinstance(rdefs[0].value, ast.IfExp):
+            alts = (rdefs[0], rdefs[0].value.test, rdefs[0].value.body, rdefs[0].value.orelse)
+        if alts is None or not all(isinstance(a, ast.Tuple) and len(a.elts) == 2 for a in alts[2:]):
+            raise AnchorError(fi.short, f"the section range `{rng.id}` is not chosen between two (start, end) pairs")
+        host, test, yes, no = alts
+        host_st = q.enclosing_stmt(fi, host)
+        top = next((b for b in loop.body if b is host_st or q.contains(b, host_st)), None)
+        tv = q.value_at(loop.body, host_st, test) if top is not None else None
+        if tv is None:
+            raise AnchorError(fi.short, "the condition choosing the section end has no single reaching definition")
+        tn = norm(tv)
+        if not ("NopGate" in tn and f"[{idx} - 1]" in tn and not isinstance(tv, ast.UnaryOp)):
+            raise AnchorError(fi.short, f"the section end is chosen by `{tn}`, a form outside the tables")
+        ctx.check("start" in norm(yes.elts[0]) and "start" in norm(no.elts[0]), "TS-SECTION", fi, "section range = (start index, end index)", f"{norm(yes)} / {norm(no)}", "the section does not record (start, end)", sa)
+        ends = (norm(yes.elts[1]).replace(" ", ""), norm(no.elts[1]).replace(" ", ""))
+        if ends == (f"{idx}-1", idx):
+            ctx.ok("TS-SECTION", fi, "end index excludes a no-op directly before the closing gate", tn[:70], host)
+        elif set(ends) <= {f"{idx}-1", idx, f"{idx}+1"}:
+            ctx.check(False, "TS-SECTION", fi, "end index excludes a no-op directly before the closing gate", tn[:70], f"the end index is {ends[0]} when the previous gate is a no-op and {ends[1]} otherwise; it must be {idx} - 1 and {idx}", host)
+        else:
+            raise AnchorError(fi.short, f"the section end index is computed as {ends}, a form outside the tables")
+        rng = None
     ok = isinstance(rng, ast.Tuple) and len(rng.elts) == 2 and "start" in norm(rng.elts[0])
-    ctx.check(ok, "TS-SECTION", fi, "section range = (start index, end index)", norm(rng) if rng is not None else "", "the section does not record (start, end)", sa)
+    if rng is not None:
+        ctx.check(ok, "TS-SECTION", fi, "section range = (start index, end index)", norm(rng) if rng is not None else "", "the section does not record (start, end)", sa)
     # end index: one past the last classical gate = current index, minus one trailing no-op (the form confirmed on
     # this tree; any other arithmetic is outside the tables and is reported as undecided, not as a pass)
     if isinstance(rng, ast.Tuple) and len(rng.elts) == 2 and isinstance(rng.elts[1], ast.Name):
@@ -321,7 +402,7 @@ def check_decompile(ctx: Ctx, fi: Optional[FuncInfo], step: FuncInfo):
         par_if = fi.pm.get(dec)
         ok = isinstance(par_if, ast.If) and "NopGate" in norm(par_if.test) and f"[{idx} - 1]" in norm(par_if.test)
         ctx.check(ok, "TS-SECTION", fi, "end index excludes a no-op directly before the closing gate", norm(par_if.test)[:70] if isinstance(par_if, ast.If) else "", "the end index is decremented under a condition other than `the previous gate is a no-op`", dec)
-    else:
+    elif rng is not None:
         raise AnchorError(fi.short, "section range is not (start, <name>)")
     # buffer reset after flush; start index recorded when the buffer opens
     resets = [n for n in ast.walk(loop) if isinstance(n, ast.Assign) and norm(n.targets[0]) == buf and isinstance(n.value, ast.List) and not n.value.elts]
